@@ -33,7 +33,7 @@ META = {
         "design_ref": "DESIGN.md §4 C06",
     },
     "C15": {
-        "text": "Theorems on the pool model, for every N, d, t0: N >= 1 tasks that each sleep d, submitted to a pool with room for N workers, are all started in the first scheduling pass - each on its own worker, in order - and every one is parked with the wake-up time t0 + d, nothing stays queued and the clock has not moved (C15_n_sleepers_one_d, by induction over the queue with the loop-iteration lemma; C15_sleeps_overlap is the general invariant form), and after the pass at t0 + d every one of the N tasks has published its own value and no worker is left (C15_n_sleepers_done); a blocking worker hands over to a fresh worker before control returns to the loop (C15_blocked_worker_hands_over); every worker whose time has come is woken in that same pass (C15_due_all_woken). Tie: a real, unstarted EventLoop driven turn by turn with a virtual clock, tasks blocking in the real hooked nanosleep; the finishing time of every task (rounds when N exceeds the pool size, 10 ms slices, computing tasks in between) is compared exactly with the model; `rtloop` runs a started loop on the wall clock with keep-alive 0-8 s and 0-2 core workers and judges lateness beyond 700 ms.",
+        "text": "Theorems on the pool model, for every N, d, t0: N >= 1 tasks that each sleep d, submitted to a pool with room for N workers, are all started in the first scheduling pass - each on its own worker, in order - and every one is parked with the wake-up time t0 + d, nothing stays queued and the clock has not moved (C15_n_sleepers_one_d, by induction over the queue with the loop-iteration lemma; C15_sleeps_overlap is the general invariant form), and after the pass at t0 + d every one of the N tasks has published its own value and no worker is left (C15_n_sleepers_done); a blocking worker hands over to a fresh worker before control returns to the loop (C15_blocked_worker_hands_over); every worker whose time has come is woken in that same pass (C15_due_all_woken). Tie: a real, unstarted EventLoop driven turn by turn with a virtual clock, tasks blocking in the real hooked nanosleep; the finishing time of every task (rounds when N exceeds the pool size, 10 ms slices, computing tasks in between) is compared exactly with the model; `rtloop` runs a started loop on the wall clock with keep-alive 0-8 s and 0-2 core workers and judges lateness beyond 1200 ms.",
         "note": "Trusted: Lean kernel; hand-written pool model; the verif_loop hook; virtual clock. Partial: wall-clock behaviour of the running loop thread (jitter, epoll timeouts) is not in the model; pool configurations with keep-alive / core workers are exercised on the wall clock only.",
         "design_ref": "DESIGN.md I.3 / §4 C15",
     },
@@ -88,7 +88,7 @@ META = {
         "design_ref": "DESIGN.md §4 C26",
     },
     "C20": {
-        "text": "Theorems: the token handed to the OS and read back from the event is the 64-bit id itself (round-trip, injective; the pre-fix 32-bit fold refuted by a witness); a wait for read readiness leaves the descriptor registered with the waiter's own token in every case (new, upgrade from write, re-wait by another waiter) and the readiness event of that descriptor reports exactly that token, nothing for descriptors without read interest. Tie: real poller + socketpairs, tokens with high/low/colliding-fold bit patterns, kernel table read from fdinfo, readable and writable events' tokens compared; `rtwake`: on a started loop a coroutine in one long wait_read_event is resumed within 700 ms of its descriptor becoming readable, also next to a coroutine that uses up every slice and with pools that keep idle workers. Known finding: one epoll registration per descriptor means a read waiter and a write waiter with different tokens share one token.",
+        "text": "Theorems: the token handed to the OS and read back from the event is the 64-bit id itself (round-trip, injective; the pre-fix 32-bit fold refuted by a witness); a wait for read readiness leaves the descriptor registered with the waiter's own token in every case (new, upgrade from write, re-wait by another waiter) and the readiness event of that descriptor reports exactly that token, nothing for descriptors without read interest. Tie: real poller + socketpairs, tokens with high/low/colliding-fold bit patterns, kernel table read from fdinfo, readable and writable events' tokens compared; `rtwake`: on a started loop a coroutine in one long wait_read_event is resumed within 1200 ms of its descriptor becoming readable, also next to a coroutine that uses up every slice and with pools that keep idle workers. Known finding: one epoll registration per descriptor means a read waiter and a write waiter with different tokens share one token.",
         "note": "Trusted: Lean kernel; selector model; epoll semantics as modelled (cross-checked against fdinfo every op); the event-loop thread's resume path above the selector is exercised on the wall clock only (`rtwake`). Partial: prompt wake-up latency is runtime.",
         "design_ref": "DESIGN.md §4 C20",
     },
